@@ -51,13 +51,11 @@ def expansions(chk, probe, model, r, files, opts, what, dist, check_model=True):
         if r2.get("parse_errors") or not r2.get("ok"):
             msgs = [e["msg"] for e in (r2.get("parse_errors") or []) + (r2.get("errors") or [])][:3]
             klass = None
-            allmsgs = [e["msg"] for e in (r2.get("errors") or [])]
-            if not r2.get("parse_errors") and allmsgs and all(m_.startswith("unknown identifier: ") for m_ in allmsgs):
-                names = [m_.split(": ", 1)[1] for m_ in allmsgs]
-                have = [s_[0] for s_ in r2.get("symbols", [])]
-                if all(any(h == n_ or h.endswith("." + n_) for h in have) for n_ in names):
-                    # every identifier reported as unknown is defined: the pass loop took "changed in two consecutive passes" for "undefined"
-                    klass = "Known_changed_reported_unknown"
+            stale = stale_of(model, r, opts)
+            if stale:
+                # the build of P kept symbols its last pass never wrote; the expansion does not contain their definitions
+                klass = "Known_stale_symbol_survives"
+                msgs = msgs + ["stale: %s" % stale[:4]]
             chk.oracle_failure(klass, "%s: the program assembles, its expansion by hand (%s) does not: %s" % (what, t, msgs or r2.get("panic")), replay)
             dist["expand"][t + ":FAIL"] = dist["expand"].get(t + ":FAIL", 0) + 1
             continue
